@@ -1284,64 +1284,50 @@ struct ical_parser_s {
 static size_t
 esccpy(char *restrict tgt, size_t tz, const char *src, size_t sz, char *pend)
 {
+/* Copy SRC to TGT, unfolding lines and undoing TEXT escapes on the way.
+ * *PEND carries what the previous buffer left us in the middle of:
+ * '\\' an escape is open, '\n' a line break has been seen and the white
+ * space of the fold may follow, 'E' both, a fold can split an escape */
 	size_t ti = 0U;
-	size_t si = 0U;
+	char st = *pend;
 
-	/* first finish what the previous buffer left us in the middle of */
-	if (UNLIKELY(*pend == '\n' && sz)) {
-		/* overread the white space of a folded line */
-		si += (*src == ' ' || *src == '\t');
-	} else if (UNLIKELY(*pend == '\\' && sz)) {
-		tgt[ti++] = (char)((*src == 'n' || *src == 'N') ? '\n' : *src);
-		si++;
-	}
-	if (sz) {
-		*pend = '\0';
-	}
-	for (; si < sz; si++) {
-		switch ((tgt[ti] = src[si])) {
+	for (size_t si = 0U; si < sz; si++) {
+		const char c = src[si];
+
+		if (st == '\n' || st == 'E') {
+			/* overread the white space of a folded line */
+			st = (char)(st == 'E' ? '\\' : '\0');
+			if (c == ' ' || c == '\t') {
+				continue;
+			}
+		}
+		switch (c) {
 		case '\r':
-			break;
+			continue;
 		case '\n':
-			/* overread along with the next space */
-			if (UNLIKELY(++si >= sz)) {
-				/* the space, if any, is in the next buffer */
-				*pend = '\n';
-			}
-			break;
-		case '\\':
-			/* ah, one of them escape sequences */
-			if (UNLIKELY(++si >= sz)) {
-				/* the escaped character is in the next buffer */
-				*pend = '\\';
-				break;
-			}
-			switch (src[si]) {
-			case 'n':
-			case 'N':
-				tgt[ti++] = '\n';
-				break;
-			case '"':
-			case ';':
-			case ',':
-			case '\\':
-			default:
-				tgt[ti++] = src[si];
-				break;
-			}
-			break;
-		case '"':
-			/* grrr, these need escaping too innit? */
+			st = (char)(st == '\\' ? 'E' : '\n');
+			continue;
 		default:
-			ti++;
 			break;
+		}
+		if (st == '\\') {
+			/* the second half of one of them escape sequences */
+			tgt[ti++] = (char)((c == 'n' || c == 'N') ? '\n' : c);
+			st = '\0';
+		} else if (c == '\\') {
+			st = '\\';
+			continue;
+		} else {
+			tgt[ti++] = c;
 		}
 		/* not sure what to do with long lines */
 		if (UNLIKELY(ti >= tz)) {
 			/* ignore them */
+			*pend = '\0';
 			return (size_t)-1;
 		}
 	}
+	*pend = st;
 	tgt[ti] = '\0';
 	return ti;
 }
